@@ -262,3 +262,180 @@ def decode_bits(name, buffer):
     data = read_exact(stream_of(buffer), n)
     u = from_le(data, n)
     return [((u >> i) & 1) == 1 for i in range(8 * n)]
+
+
+def decode_stringn(buffer):
+    if not isinstance(buffer, (bytes, BytesIO)):
+        raise DataError("not a buffer")
+    stream = stream_of(buffer)
+    cs = from_le(read_exact(stream, 2), 2)
+    d = stream.read(2)
+    if len(d) < 2:
+        raise DataError("truncated")
+    n = from_le(d, 2)
+    if cs != 1 and cs != 2 and cs != 4:
+        raise DataError("unsupported character size")
+    data = stream.read(n * cs)
+    if len(data) < n * cs:
+        raise DataError("truncated")
+    if cs == 1:
+        try:
+            return data.decode("utf-8")   # the library documents UTF-8 for 1-byte characters
+        except UnicodeDecodeError:
+            raise DataError("malformed characters")
+    return bytes_text(data, cs)
+
+
+# ---------------------------------------------------------------------------------------------- generic, by descriptor
+#   descriptor := type name (str)                      elementary / string / bit-string type
+#              |  ("array", n | None | type name, descriptor)
+#              |  ("struct", ((member name | None, descriptor), ...))
+#              |  ("nbytes", size)
+def is_bits(desc):
+    return isinstance(desc, str) and desc in BITSTRING_TYPES
+
+
+def encode(desc, value):
+    if isinstance(desc, str):
+        if desc in INT_TYPES:
+            return encode_int(desc, value)
+        if desc == "BOOL":
+            return encode_bool(value)
+        if desc == "REAL" or desc == "LREAL":
+            return encode_real(desc, value)
+        if desc in STRING_TYPES:
+            return encode_string(desc, value)
+        if desc in BITSTRING_TYPES:
+            return encode_bits(desc, value)
+        raise DataError("unknown type")
+    if desc[0] == "nbytes":
+        return encode_nbytes(desc[1], value)
+    if desc[0] == "array":
+        return encode_array(desc[1], desc[2], value)
+    if desc[0] == "struct":
+        return encode_struct(desc[1], value)
+    raise DataError("unknown type")
+
+
+def decode(desc, buffer):
+    if not isinstance(buffer, (bytes, BytesIO)):
+        raise DataError("not a buffer")
+    stream = stream_of(buffer)
+    if isinstance(desc, str):
+        if desc in INT_TYPES:
+            return decode_int(desc, stream)
+        if desc == "BOOL":
+            return decode_bool(stream)
+        if desc == "REAL" or desc == "LREAL":
+            return decode_real(desc, stream)
+        if desc in STRING_TYPES:
+            return decode_string(desc, stream)
+        if desc in BITSTRING_TYPES:
+            return decode_bits(desc, stream)
+        raise DataError("unknown type")
+    if desc[0] == "nbytes":
+        return decode_nbytes(desc[1], stream)
+    if desc[0] == "array":
+        return decode_array(desc[1], desc[2], stream)
+    if desc[0] == "struct":
+        return decode_struct(desc[1], stream)
+    raise DataError("unknown type")
+
+
+def encode_array(length, elem, values):
+    """T[n]: the first n values, concatenated (over-long input truncated, too short a DataError);
+    T[LengthType]: the element count as LengthType, then all values; T[None]: all values.
+    Arrays of bit strings take / give one flat list of bools, 8*width per element."""
+    if not isinstance(values, (list, tuple)):
+        raise DataError("not a sequence")
+    if is_bits(elem):
+        width = 8 * BITSTRING_TYPES[elem]
+        if isinstance(length, int):
+            if len(values) < length * width:
+                raise DataError("too few bits")
+            count = length
+        else:
+            if len(values) % width != 0:
+                raise DataError("not a whole number of bit strings")
+            count = len(values) // width
+        items = [values[i * width:(i + 1) * width] for i in range(count)]
+    else:
+        if isinstance(length, int):
+            if len(values) < length:
+                raise DataError("too few values")
+            count = length
+        else:
+            count = len(values)
+        items = [values[i] for i in range(count)]
+    out = b""
+    if isinstance(length, str):
+        out = encode_int(length, count)
+    for it in items:
+        out = out + encode(elem, it)
+    return out
+
+
+def decode_array(length, elem, stream):
+    start = stream.tell()
+    if length is None:
+        out = []
+        while True:
+            here = stream.tell()
+            if len(stream.getvalue()) == here:
+                break
+            out.append(decode_member(elem, stream, True))
+        if len(out) == 0 and start == stream.tell():
+            pass
+        if is_bits(elem):
+            return [b for it in out for b in it]
+        return out
+    if isinstance(length, str):
+        count = decode_int(length, stream)
+    else:
+        count = length
+        if count > 0 and len(stream.getvalue()) == start:
+            raise BufferEmptyError()
+    out = [decode_member(elem, stream, isinstance(length, str) or i > 0) for i in range(count)]
+    if is_bits(elem):
+        return [b for it in out for b in it]
+    return out
+
+
+def decode_member(desc, stream, inside):
+    """a member of a composite: running out of bytes inside the composite is truncation, not emptiness"""
+    if not inside:
+        return decode(desc, stream)
+    try:
+        return decode(desc, stream)
+    except BufferEmptyError:
+        raise DataError("truncated")
+
+
+def encode_struct(members, values):
+    """members in declaration order; a dict supplies them by name, a sequence by position (one value per member)"""
+    if isinstance(values, dict):
+        out = b""
+        for name, desc in members:
+            if name not in values:
+                raise DataError("missing member")
+            out = out + encode(desc, values[name])
+        return out
+    if not isinstance(values, (list, tuple)):
+        raise DataError("not a mapping or sequence")
+    if len(values) != len(members):
+        raise DataError("wrong number of values")
+    out = b""
+    for i in range(len(members)):
+        out = out + encode(members[i][1], values[i])
+    return out
+
+
+def decode_struct(members, stream):
+    out = {}
+    first = True
+    for name, desc in members:
+        v = decode_member(desc, stream, not first)
+        first = False
+        if name is not None and name != "":
+            out[name] = v
+    return out
